@@ -170,38 +170,28 @@ def check(prog, rep, tier):
             seenw[name] = 'ok'
             rep.ok('R03.c', name, file='yabgp/core/protocol.py', line=common.row_line(r))
 
-    # R03.d: over all rows
-    seen = set()
-    nres = 0
-    for (ev, state), rows in sorted(tab.rows.items()):
-        if ev == 'T_delay_open' and facts['dot_dead']:
-            continue
-        for r in rows:
-            iv = hold_iv(r)
-            for e in r.events:
-                if e[0] != 'timer' or e[2] != 'reset' or e[1] not in ('hold', 'keep_alive'):
-                    continue
-                arg = e[3][0] if e[3] else None
-                if isinstance(arg, Const):
-                    continue            # large hold time
-                nres += 1
-                name = '%s.reset@%s@%s' % (e[1], ev if ev != 'WIRE' else 'WIRE:' + r.wire['cls'], state)
-                zero_possible = iv is None or iv[0] <= 0
-                if isinstance(arg, Sym):
-                    alo, ahi, aneq = r.st.interval(arg.name)
-                    if e[1] == 'hold':
-                        zero_possible = alo <= 0 and 0 not in aneq
-                if zero_possible:
-                    if name not in seen:
-                        seen.add(name)
-                        rep.bad('R03.d', name, file=FSM_FILE, line=e[4], func=common.row_func(r),
-                                found='%s_timer.reset(%s) reachable with hold time 0 (fires at once)' % (
-                                    e[1], cval(arg)),
-                                expected='re-arm only under a test that excludes hold_time == 0',
-                                key=name, path=r.describe())
-                elif name not in seen:
-                    seen.add(name)
-                    rep.ok('R03.d', name, file=FSM_FILE, line=e[4])
+    # receiving a message never touches the keepalive timer: our KEEPALIVEs go out every H/3 counted from the
+    # previous one, a restart on reception stretches the gap
+    seenk = {}
+    for ev in ('KEEPALIVE', 'UPDATE'):
+        for state in ('OpenConfirm', 'Established'):
+            for r in tab.get(ev, state):
+                if r.kind == 'raise' or r.final not in ('OpenConfirm', 'Established'):
+                    continue            # an error close stops every timer
+                name = 'keepalive-timer-untouched:%s@%s' % (ev, state)
+                ops = [t for t in r.timer_ops() if t[0] == 'keep_alive' and t[1] == 'reset']
+                if ops:
+                    if seenk.get(name) != 'bad':
+                        seenk[name] = 'bad'
+                        rep.bad('R03.c', name, file=common.row_file(r), line=common.row_line(r), func=common.row_func(r),
+                                found='a received %s in %s does keep_alive.%s(...): the next KEEPALIVE of the agent is '
+                                      'pushed back, so the gap between two of them can exceed H/3' % (ev, state, ops[0][1]),
+                                expected='only the hold timer is restarted on reception', key=name, path=r.describe())
+                elif name not in seenk:
+                    seenk[name] = 'ok'
+                    rep.ok('R03.c', name, file=common.row_file(r), line=common.row_line(r))
+
+    nres = zero_hold_resets(tab, facts, rep, 'R03.d')
     rep.floor('R03.d', 'timer re-arm sites evaluated', nres, 8)
     # accepting an OPEN with H = 0 leaves hold/keepalive timers off
     found0 = False
@@ -264,6 +254,44 @@ def check(prog, rep, tier):
     timer_shape(prog, rep)
 
 
+def zero_hold_resets(tab, facts, rep, rule, only_states=None):
+    """No hold / keepalive timer is re-armed with a value that can be 0 (it would fire at once)."""
+    seen = set()
+    nres = 0
+    for (ev, state), rows in sorted(tab.rows.items()):
+        if ev == 'T_delay_open' and facts['dot_dead']:
+            continue
+        for r in rows:
+            iv = hold_iv(r)
+            if only_states is not None and state not in only_states:
+                continue
+            for e in r.events:
+                if e[0] != 'timer' or e[2] != 'reset' or e[1] not in ('hold', 'keep_alive'):
+                    continue
+                arg = e[3][0] if e[3] else None
+                if isinstance(arg, Const):
+                    continue            # large hold time
+                nres += 1
+                name = '%s.reset@%s@%s' % (e[1], ev if ev != 'WIRE' else 'WIRE:' + r.wire['cls'], state)
+                zero_possible = iv is None or iv[0] <= 0
+                if isinstance(arg, Sym):
+                    alo, ahi, aneq = r.st.interval(arg.name)
+                    if e[1] == 'hold':
+                        zero_possible = alo <= 0 and 0 not in aneq
+                if zero_possible:
+                    if name not in seen:
+                        seen.add(name)
+                        rep.bad(rule, name, file=FSM_FILE, line=e[4], func=common.row_func(r),
+                                found='%s_timer.reset(%s) reachable with hold time 0 (fires at once)' % (
+                                    e[1], cval(arg)),
+                                expected='re-arm only under a test that excludes hold_time == 0',
+                                key=name, path=r.describe())
+                elif name not in seen:
+                    seen.add(name)
+                    rep.ok(rule, name, file=FSM_FILE, line=e[4])
+    return nres
+
+
 def _handler_types(h, module=None):
     if h.type is None:
         return {'*'}
@@ -274,8 +302,24 @@ def _handler_types(h, module=None):
     return set(src_of(e).split('.')[-1] for e in elts)
 
 
-def timer_shape(prog, rep):
+def timer_shape(prog, rep, rule='R03.g'):
     cls = prog.cls('yabgp.core.timer.BGPTimer')
+    # active(): the truth is the reactor's (DelayedCall.active()), not a flag the class keeps itself - a timer that
+    # fired is not running any more although nobody cancelled it
+    fa = cls.find_method('active')
+    if fa is None:
+        raise AnalysisError('BGPTimer.active vanished')
+    rets = [n for n in ast.walk(fa.node) if isinstance(n, ast.Return) and n.value is not None]
+    asks = [r_ for r_ in rets if isinstance(r_.value, ast.Call) and isinstance(r_.value.func, ast.Attribute)
+            and r_.value.func.attr == 'active' and 'delayed_call' in common.unalias(fa.node, r_.value.func.value)]
+    others = [r_ for r_ in rets if r_ not in asks and not (isinstance(r_.value, ast.Constant) and r_.value.value is False)]
+    if asks and not others:
+        rep.ok(rule, 'BGPTimer.active', file=fa.file, line=fa.node.lineno)
+    else:
+        rep.bad(rule, 'BGPTimer.active', file=fa.file, line=fa.node.lineno, func=fa.qualname,
+                found='active() returns %s: it does not ask the pending DelayedCall, so a timer that has fired still '
+                      'counts as running' % [src_of(r_.value) for r_ in (others or rets)][:2],
+                expected='return self.delayed_call.active() (False when there is no call)', key='BGPTimer.active')
     need = {'AttributeError', 'AlreadyCalled', 'AlreadyCancelled'}
     for meth, inner in (('reset', 'reset'), ('cancel', 'cancel')):
         f = cls.find_method(meth)
@@ -323,16 +367,16 @@ def timer_shape(prog, rep):
                     continue
             ok = True
         if ok:
-            rep.ok('R03.g', 'BGPTimer.%s' % meth, file=f.file, line=f.node.lineno)
+            rep.ok(rule, 'BGPTimer.%s' % meth, file=f.file, line=f.node.lineno)
         else:
-            rep.bad('R03.g', 'BGPTimer.%s' % meth, file=f.file, line=f.node.lineno, func=f.qualname,
+            rep.bad(rule, 'BGPTimer.%s' % meth, file=f.file, line=f.node.lineno, func=f.qualname,
                     found=why, expected='documented reset/cancel semantics', key='BGPTimer.%s' % meth)
     # callbacks: every timer of FSM.__init__ is built with a bound FSM method
     init = prog.cls('yabgp.core.timer.BGPTimer').find_method('__init__')
     st = [n for n in ast.walk(init.node) if isinstance(n, ast.Assign) and
           any(isinstance(t, ast.Attribute) and t.attr == 'callable' for t in n.targets)]
     if st and isinstance(st[0].value, ast.Name) and st[0].value.id in init.params:
-        rep.ok('R03.g', 'BGPTimer.__init__', file=init.file, line=st[0].lineno)
+        rep.ok(rule, 'BGPTimer.__init__', file=init.file, line=st[0].lineno)
     else:
-        rep.bad('R03.g', 'BGPTimer.__init__', file=init.file, line=init.node.lineno,
+        rep.bad(rule, 'BGPTimer.__init__', file=init.file, line=init.node.lineno,
                 found='self.callable is not the constructor argument', key='BGPTimer.__init__')
